@@ -106,6 +106,25 @@ fn product<T: Clone>(choices: &[Vec<T>]) -> Vec<Vec<T>> {
     out
 }
 
+/// a forest that is one block containing one block containing one block
+fn is_chain(f: &[Sk]) -> bool {
+    fn nested(b: &Sk) -> Vec<&Sk> {
+        match b {
+            Sk::If(_, _, bodies) => bodies.iter().flatten().collect(),
+            Sk::While(x) | Sk::For(x) => x.iter().collect(),
+        }
+    }
+    if f.len() != 1 {
+        return false;
+    }
+    let l2 = nested(&f[0]);
+    if l2.len() != 1 {
+        return false;
+    }
+    let l3 = nested(l2[0]);
+    l3.len() == 1 && nested(l3[0]).is_empty()
+}
+
 struct Builder {
     next_id: u32,
     next_site: u32,
@@ -188,7 +207,7 @@ pub fn build(forest: &[Sk], emptiness: u8, forms: u8) -> Program {
 
 pub fn bounds(tier: Tier) -> Value {
     match tier {
-        Tier::Quick => json!({"blocks_full_spelling_product": 1, "blocks_rotated_spellings": 2, "depth": 3, "deviations": 2, "horizon": 8}),
+        Tier::Quick => json!({"blocks_full_spelling_product": 1, "blocks_rotated_spellings": 2, "three_block_nesting_chains": true, "depth": 3, "deviations": 2, "horizon": 8}),
         Tier::Thorough => json!({"blocks_full_spelling_product": 1, "blocks_rotated_spellings": 3, "depth": 3, "deviations": 3, "horizon": 12, "four_blocks_subset": true}),
     }
 }
@@ -349,6 +368,26 @@ pub fn worker(w: &mut Worker) {
                         report(w, r, cj, true, hash64(&(n, count(&forest), forms, rot)));
                     }
                 }
+            }
+        }
+    }
+    if tier == Tier::Quick {
+        // three blocks nested in one another (depth 3 chains): block boundary discovery across
+        // alternating block kinds needs three levels to go wrong
+        for forest in forests(3, 3) {
+            if !is_chain(&forest) {
+                continue;
+            }
+            for (forms, rot) in [(2u8, 0usize), (0u8, 0usize), (2u8, 1usize), (7u8, 2usize)] {
+                if !w.take() {
+                    continue;
+                }
+                let prog = build(&forest, 0, forms);
+                let text = render(&prog, &mut Speller::rot(rot));
+                let cj = json!({"script": text, "blocks": 3});
+                w.begin(|| cj.clone());
+                let r = explore_program(&rig, &prog, &text, devs, horizon, 100_000);
+                report(w, r, cj, true, hash64(&(3, "chain", forms, rot)));
             }
         }
     }
